@@ -15,7 +15,8 @@
                        are a history: ParamGetters!ReadOnly, HistoryFree: each is judged against the unchanged
                        parameter, whatever was called - or done to a returned list - before)
    Clauses:  P:readonly   a getter changed the request's mapping  P:exception  P:outcome (value/default/error where another is due)  P:value  P:bounds
-             P:store      D:error_class (right 400 class family, other subclass) *)
+             P:store      D:error_class (right 400 class family, other subclass)
+             D:lenient_spelling (400 for a spelling the Python constructor accepts but the documentation does not name) *)
 EXTENDS ParamGettersOps, Json, IOUtils
 
 Traces == JsonDeserialize(IOEnv.TRACE_FILE)
@@ -38,13 +39,31 @@ JudgeAgainst(e, x) ==
     ELSE IF e.res # x.res THEN "D:error_class"
     ELSE "ok"
 
+(* the last conversion is "open" (ScalarLex does not model the constructor's decision): a value, whatever it is,
+   or the 400-class error; the store protocol still binds *)
+JudgeOpen(e) ==
+    IF e.res = "crash" THEN "P:exception"
+    ELSE IF e.res \notin {"value", "invalid", "other400"} THEN "P:outcome"
+    ELSE IF e.stored # (e.res = "value" /\ e.call.store) THEN "P:store"
+    ELSE IF e.stored /\ e.sv # e.v THEN "P:store"
+    ELSE IF ~e.mapsame THEN "P:readonly"
+    ELSE IF e.res = "other400" THEN "D:error_class"
+    ELSE "ok"
+
 (* accepted iff some acceptable outcome matches; otherwise the clause is named against the main one
-   (for a name present with zero values: the absent protocol) *)
+   (for a name present with zero values: the absent protocol).  A lenient spelling answered with the 400-class
+   error instead of the value the unchanged code reports is a D-note. *)
 Judge(e) ==
     LET X == Outcomes(e.present, e.zero, e.convs, e.call)
-        main == IF e.zero /\ e.call.kind # "has" THEN Absent(e.call) ELSE CHOOSE x \in X : TRUE
+        main == IF e.zero /\ e.call.kind # "has" THEN Absent(e.call)
+                ELSE IF e.zero THEN CHOOSE x \in X : TRUE
+                ELSE Outcome(e.present, e.convs, e.call)
+        unp == ~e.zero /\ Unpinned(e.present, e.convs, e.call)
     IN  IF e.present /\ e.zero THEN "H:status"
-        ELSE IF \E x \in X : JudgeAgainst(e, x) = "ok" THEN (IF e.mapsame THEN "ok" ELSE "P:readonly")
+        ELSE IF unp /\ IsOpen(e.convs[Len(e.convs)]) THEN JudgeOpen(e)
+        ELSE IF JudgeAgainst(e, main) = "ok" THEN (IF e.mapsame THEN "ok" ELSE "P:readonly")
+        ELSE IF \E x \in X : JudgeAgainst(e, x) = "ok" THEN
+            (IF ~e.mapsame THEN "P:readonly" ELSE IF unp THEN "D:lenient_spelling" ELSE "ok")
         ELSE JudgeAgainst(e, main)
 
 Step == /\ l >= 1 /\ l <= Len(T.ev) /\ verdict = "ok"
